@@ -25,7 +25,7 @@ def log(*a):
 
 def parse_hists(out):
     hs = {}
-    for m in re.finditer(r'<<"HIST", (".*?"), (TRUE|FALSE)>>', out):
+    for m in re.finditer(r'<<\s*"HIST",\s*(".*?"),\s*(TRUE|FALSE)\s*>>', out):
         h = json.loads(m.group(1))
         hs.setdefault(h, m.group(2) == "TRUE")
         if m.group(2) == "FALSE":
@@ -98,6 +98,18 @@ def run(prop, tier, clause_prefixes, sc, bins, replay_file=None):
                     name = "regress-" + f[:-5]
                     cases[name] = dict(name=name, ops=b["ops"], patterns=PATTERNS, seed=sd)
                     origin[name] = "regress"
+    # harness-level instantiation of the requests (the reference semantics does not depend on it): how a request
+    # addresses its target (in every path / in the prefix / first element in the prefix too), and updates that the
+    # same request also deletes (gNMI: the deletes of a request take effect before its updates)
+    for name in sorted(cases):
+        r2 = random.Random("%s-%d" % (name, sd))
+        for op in cases[name]["ops"]:
+            if op.get("kind") != "set":
+                continue
+            op["mode"] = r2.choice(["", "", "prefix", "split"])
+            upd = sorted(p for p, v in op["ch"].items() if v != "DEL")
+            if upd and r2.random() < 0.2:
+                op["re"] = upd
     names = sorted(cases)
     def cmd(ci, chunk):
         inp = sc.path("data-cases%03d.ndjson" % ci)
@@ -138,7 +150,7 @@ def run(prop, tier, clause_prefixes, sc, bins, replay_file=None):
         if bad or "No error has been found" not in out or "Postcondition" in out:
             raise vlib.Inconclusive("data validation batch %d did not complete (%s):\n%s" % (bi, bad, out[-2000:]))
         checked += len(ls)
-        for m in re.finditer(r'<<"VIOLATION", (\d+), \{([^}]*)\}>>', out):
+        for m in re.finditer(r'<<\s*"VIOLATION",\s*(\d+),\s*\{([^}]*)\}\s*>>', out, re.S):
             L = ls[int(m.group(1)) - 1]
             for c in re.findall(r'"(\w+)"', m.group(2)):
                 if any(c.startswith(p) for p in clause_prefixes):
